@@ -162,6 +162,17 @@ func tieFree(in *Input) bool {
 			seen[f] = true
 		}
 	}
+	// the instant a relay goroutine gives up (250 ms after a last retryable failure) is not the deadline
+	for i, fs := range fts {
+		k := len(fs) - 1
+		end := fs[k]
+		if k >= len(in.Relays[i].Script) || in.Relays[i].Script[k].Kind == "err" || in.Relays[i].Script[k].Kind == "hang" {
+			end += 250
+		}
+		if end == in.Deadline {
+			return false
+		}
+	}
 	for i, fs := range fts {
 		for k, f := range fs {
 			if k >= len(in.Relays[i].Script) {
@@ -790,6 +801,8 @@ func count(col *Collector, in *Input, o *Obs) {
 		col.Count("observed:submitted-local")
 	case ncalls > 0 && o.Ret >= in.Deadline:
 		col.Count("observed:no-relay-delivered-in-time")
+	case ncalls > 0:
+		col.Count("observed:every-relay-gave-up-before-the-deadline")
 	default:
 		col.Count("observed:nothing-submitted")
 	}
